@@ -9,7 +9,7 @@ satisfied by every file laid out as the creator does (`ManifestLayout.of_concat`
 -/
 import JubakoModel.Lemmas.Rewrite
 import JubakoModel.Lemmas.SetLocation
-import JubakoModel.Lemmas.Funcs
+import JubakoModel.Lemmas.FuncsCheck
 
 set_option maxRecDepth 8000
 
